@@ -25,9 +25,12 @@ Definition x_sev (a : arg) : option Z := match a with ASev s => Some s | _ => No
 Definition x_body (a : arg) : option aval := match a with ABody _ v => Some v | _ => None end.
 Definition x_ts (a : arg) : option Z := match a with ATs z | ATp z => Some z | _ => None end.
 Definition x_obs (a : arg) : option Z := match a with AObs z => Some z | _ => None end.
-(* an EventId carries its name as a C string *)
+(* an EventId carries its name as a C string; one without a name has the empty name *)
 Definition x_eid (a : arg) : option (Z * bytes) :=
-  match a with AEid id (Some n) => Some (id, until_nul n) | AEidRaw id n => Some (id, n) | _ => None end.
+  match a with
+  | AEid id (Some n) => Some (id, until_nul n) | AEid id None => Some (id, []) | AEidRaw id n => Some (id, n)
+  | _ => None
+  end.
 Definition x_tid (a : arg) : option bytes := match a with ATid t | ACtx t _ _ => Some t | _ => None end.
 Definition x_sid (a : arg) : option bytes := match a with ASid s | ACtx _ s _ => Some s | _ => None end.
 Definition x_fl (a : arg) : option Z := match a with AFl f | ACtx _ _ f => Some f | _ => None end.
@@ -296,14 +299,6 @@ Fixpoint check_ops (c : cfg) (x : xstate) (ops : list lop) (obs known : list tok
       end
   end.
 
-Definition has_nameless (o : lop) : bool :=
-  match o with
-  | LApply _ a => arg_crashes a
-  | LEmitV _ _ args | LEmitRV _ _ _ args | LLevel _ _ _ args => existsb arg_crashes args
-  | LLog _ _ _ form _ _ _ _ _ => Nat.eqb form 3
-  | _ => false
-  end.
-
 (* the whole case against an observation *)
 Definition check_run (k : case) (obs : list tok) : list tok :=
   match check_ops (k_cfg k) (xstate0 (k_mem k) (k_procs k)) (k_ops k) obs [] with
@@ -322,7 +317,4 @@ Definition single_tag (s : string) (obs : list tok) : bool :=
 
 Definition check_case (k : case) (obs : list tok) : list tok :=
   if single_tag "ILL" obs then []              (* the program itself is not well defined: nothing is claimed *)
-  else if single_tag "CRASH" obs then
-    (if existsb has_nameless (k_ops k) then fail "log_fields_as_supplied:event_id_without_name_crash"
-     else fail "log_fields_as_supplied:crash")
   else check_run k obs.
